@@ -774,7 +774,13 @@ pub fn replay_c13(rest: &[String]) -> ! {
 
 pub fn c13(a: &Args) -> (Stats, String) {
     let t = Timer::new();
-    let (dfull, dcore) = if a.thorough { (5, 7) } else { (4, 6) };
+    // `--depths F,K` overrides (used by the slow monitors)
+    let (mut dfull, mut dcore) = if a.thorough { (5, 7) } else { (4, 6) };
+    if let Some(p) = a.rest.iter().position(|x| x == "--depths") {
+        let (x, y) = a.rest[p + 1].split_once(',').unwrap();
+        dfull = x.parse().unwrap();
+        dcore = y.parse().unwrap();
+    }
     let nct = ctors().len();
     let fa = full_alphabet();
     let ca = core_alphabet();
